@@ -429,9 +429,13 @@ impl VersionManager {
             // Single-threaded modes don't need version tracking
             (1, 1)
         };
+        #[cfg(zipora_verif)]
+        crate::verif_hooks::sched_point("vm.r.versioned", version, min_version);
 
         // Increment active reader count
         self.active_readers.fetch_add(1, Ordering::Relaxed);
+        #[cfg(zipora_verif)]
+        crate::verif_hooks::sched_point("vm.r.counted", version, 0);
 
         // Update statistics
         if let Ok(mut stats) = self.stats.lock() {
@@ -468,6 +472,8 @@ impl VersionManager {
         // For OneWriteMultiRead, ensure no other writers are active
         if self.concurrency_level == ConcurrencyLevel::OneWriteMultiRead {
             let current_writers = self.active_writers.load(Ordering::Acquire);
+            #[cfg(zipora_verif)]
+            crate::verif_hooks::sched_point("vm.w.loaded", current_writers, 0);
             if current_writers > 0 {
                 return Err(ZiporaError::resource_busy(
                     "Another writer is already active in OneWriteMultiRead mode",
@@ -488,9 +494,13 @@ impl VersionManager {
         } else {
             (1, 1)
         };
+        #[cfg(zipora_verif)]
+        crate::verif_hooks::sched_point("vm.w.versioned", version, min_version);
 
         // Increment active writer count
         self.active_writers.fetch_add(1, Ordering::Relaxed);
+        #[cfg(zipora_verif)]
+        crate::verif_hooks::sched_point("vm.w.counted", version, 0);
 
         // Update statistics
         if let Ok(mut stats) = self.stats.lock() {
@@ -513,6 +523,8 @@ impl VersionManager {
     /// Internal method to release a reader token.
     fn release_reader_token(&self, token_version: u64) {
         self.active_readers.fetch_sub(1, Ordering::Relaxed);
+        #[cfg(zipora_verif)]
+        crate::verif_hooks::sched_point("vm.rel.dec", token_version, 0);
 
         // Update minimum version if this was the head token
         if self.concurrency_level.requires_synchronization() {
@@ -528,6 +540,8 @@ impl VersionManager {
     /// Internal method to release a writer token.
     fn release_writer_token(&self, token_version: u64) {
         self.active_writers.fetch_sub(1, Ordering::Relaxed);
+        #[cfg(zipora_verif)]
+        crate::verif_hooks::sched_point("vm.rel.dec", token_version, 1);
 
         // Update minimum version if this was the head token
         if self.concurrency_level.requires_synchronization() {
@@ -548,8 +562,14 @@ impl VersionManager {
         if self.active_readers.load(Ordering::Relaxed) == 0
             && self.active_writers.load(Ordering::Relaxed) == 0
         {
+            #[cfg(zipora_verif)]
+            crate::verif_hooks::sched_point("vm.adv.zero", 0, 0);
             let current = self.current_version.load(Ordering::Acquire);
+            #[cfg(zipora_verif)]
+            crate::verif_hooks::sched_point("vm.adv.cur", current, 0);
             self.min_version.store(current, Ordering::Release);
+            #[cfg(zipora_verif)]
+            crate::verif_hooks::sched_point("vm.adv.store", current, 0);
         }
     }
 
@@ -574,6 +594,13 @@ impl VersionManager {
         let current = self.current_version();
         let min = self.min_version();
         token_version >= min && token_version <= current
+    }
+}
+
+#[cfg(zipora_verif)]
+impl Drop for VersionManager {
+    fn drop(&mut self) {
+        crate::verif_hooks::event("vm.drop", self as *const Self as usize as u64, 0, 0);
     }
 }
 
@@ -648,6 +675,8 @@ impl std::fmt::Debug for TokenReleaseCallback {
 
 impl TokenReleaseCallback {
     fn release(&self, token_version: u64) {
+        #[cfg(zipora_verif)]
+        crate::verif_hooks::event("vm.release", self.version_manager as usize as u64, self.token_type as u64, token_version);
         unsafe {
             let manager = &*self.version_manager;
             match self.token_type {
